@@ -144,3 +144,157 @@ Corollary lay_fopts_perm o1 o2 :
   (forall a b, In a o1 -> In b o1 -> dopt_key a = dopt_key b -> a = b) ->
   lay_fopts o1 = lay_fopts o2.
 Proof. intros Hp Hd. unfold lay_fopts. rewrite (lay_sopts_perm o1 o2 Hp Hd). reflexivity. Qed.
+
+(* ======== the whole printed file, in tool's model, does not depend on ANY Range order =====================
+   Two descriptors are Range-equivalent when they differ only in the order of their option lists - of messages,
+   oneofs, fields, enums, enum values, services, methods and extension fields, at every nesting depth - and the
+   options of each list have distinct sort keys.  Everything else in tool's descriptor (element lists, imports,
+   file options) is in declaration order, which the linker fixes.  print_file_tokens agrees on them. *)
+Definition opts_equiv (o1 o2 : list dopt) : Prop :=
+  Permutation o1 o2 /\ (forall a b, In a o1 -> In b o1 -> dopt_key a = dopt_key b -> a = b).
+
+Definition field_equiv (f1 f2 : dfield) : Prop :=
+  f_key f1 = f_key f2 /\ f_cm f1 = f_cm f2 /\ f_label f1 = f_label f2 /\ f_type f1 = f_type f2
+  /\ ProtoPrintFile.f_name f1 = ProtoPrintFile.f_name f2 /\ f_num f1 = f_num f2 /\ f_json f1 = f_json f2 /\ opts_equiv (f_opts f1) (f_opts f2).
+Definition value_equiv (v1 v2 : dvalue) : Prop :=
+  v_key v1 = v_key v2 /\ v_cm v1 = v_cm v2 /\ v_name v1 = v_name v2 /\ v_num v1 = v_num v2 /\ opts_equiv (v_opts v1) (v_opts v2).
+Definition method_equiv (m1 m2 : dmethod) : Prop :=
+  m_key m1 = m_key m2 /\ m_cm m1 = m_cm m2 /\ m_name m1 = m_name m2 /\ m_in m1 = m_in m2 /\ m_out m1 = m_out m2
+  /\ opts_equiv (m_opts m1) (m_opts m2).
+
+Fixpoint delem_equiv (e1 e2 : delem) {struct e1} : Prop :=
+  match e1 with
+  | DField f1 => match e2 with DField f2 => field_equiv f1 f2 | _ => False end
+  | DOneof k1 c1 n1 o1 fs1 =>
+      match e2 with
+      | DOneof k2 c2 n2 o2 fs2 => k1 = k2 /\ c1 = c2 /\ n1 = n2 /\ opts_equiv o1 o2 /\ Forall2 field_equiv fs1 fs2
+      | _ => False
+      end
+  | DMsg k1 c1 n1 o1 b1 =>
+      match e2 with
+      | DMsg k2 c2 n2 o2 b2 =>
+          k1 = k2 /\ c1 = c2 /\ n1 = n2 /\ opts_equiv o1 o2
+          /\ (fix go (l1 l2 : list delem) {struct l1} : Prop :=
+                match l1, l2 with
+                | [], [] => True
+                | x :: r, y :: s => delem_equiv x y /\ go r s
+                | _, _ => False
+                end) b1 b2
+      | _ => False
+      end
+  | DEnum k1 c1 n1 o1 vs1 =>
+      match e2 with
+      | DEnum k2 c2 n2 o2 vs2 => k1 = k2 /\ c1 = c2 /\ n1 = n2 /\ opts_equiv o1 o2 /\ Forall2 value_equiv vs1 vs2
+      | _ => False
+      end
+  | DService k1 c1 n1 o1 ms1 =>
+      match e2 with
+      | DService k2 c2 n2 o2 ms2 => k1 = k2 /\ c1 = c2 /\ n1 = n2 /\ opts_equiv o1 o2 /\ Forall2 method_equiv ms1 ms2
+      | _ => False
+      end
+  end.
+Fixpoint delems_equiv (l1 l2 : list delem) : Prop :=
+  match l1, l2 with
+  | [], [] => True
+  | x :: r, y :: s => delem_equiv x y /\ delems_equiv r s
+  | _, _ => False
+  end.
+
+Definition dfile_equiv (d1 d2 : dfile) : Prop :=
+  d_pkg d1 = d_pkg d2 /\ d_imports d1 = d_imports d2 /\ d_fopts d1 = d_fopts d2
+  /\ Forall2 (fun x y => fst x = fst y /\ field_equiv (snd x) (snd y)) (d_exts d1) (d_exts d2)
+  /\ delems_equiv (d_body d1) (d_body d2).
+
+Lemma opts_equiv_refl o : (forall a b, In a o -> In b o -> dopt_key a = dopt_key b -> a = b) -> opts_equiv o o.
+Proof. intro H. split; [apply Permutation_refl|exact H]. Qed.
+
+Lemma map_Forall2_eq {A B} (R : A -> A -> Prop) (g : A -> B) l1 l2 :
+  Forall2 R l1 l2 -> (forall a b, R a b -> g a = g b) -> map g l1 = map g l2.
+Proof. intros H Hg. induction H as [|a b r s Hab _ IH]; cbn [map]; [reflexivity|]. rewrite (Hg a b Hab), IH. reflexivity. Qed.
+
+Lemma lay_field_equiv st pkg ctx x f1 f2 : field_equiv f1 f2 -> lay_field st pkg ctx x f1 = lay_field st pkg ctx x f2.
+Proof.
+  intros (E1 & E2 & E3 & E4 & E5 & E6 & E7 & Hp & Hd). unfold lay_field.
+  rewrite E2, E3, E4, E5, E6, E7, (lay_fopts_perm _ _ Hp Hd). reflexivity.
+Qed.
+Lemma lay_fields_equiv st pkg ctx fs1 fs2 : Forall2 field_equiv fs1 fs2 -> lay_fields st pkg ctx fs1 = lay_fields st pkg ctx fs2.
+Proof.
+  intro H. unfold lay_fields. f_equal. apply (map_Forall2_eq field_equiv); [exact H|].
+  intros a b Hab. rewrite (lay_field_equiv st pkg ctx false a b Hab). destruct Hab as (E & _). rewrite E. reflexivity.
+Qed.
+Lemma lay_value_equiv v1 v2 : value_equiv v1 v2 -> lay_value v1 = lay_value v2.
+Proof. intros (E1 & E2 & E3 & E4 & Hp & Hd). unfold lay_value. rewrite E2, E3, E4, (lay_fopts_perm _ _ Hp Hd). reflexivity. Qed.
+Lemma lay_method_equiv st pkg n m1 m2 : method_equiv m1 m2 -> lay_method st pkg n m1 = lay_method st pkg n m2.
+Proof.
+  intros (E1 & E2 & E3 & E4 & E5 & Hp & Hd). unfold lay_method. rewrite E2, E3, E4, E5, (lay_sopts_perm _ _ Hp Hd). reflexivity.
+Qed.
+
+(* induction over the nested element tree with Forall on a message's body *)
+Section DelemInd.
+  Variable P : delem -> Prop.
+  Hypothesis HF : forall f, P (DField f).
+  Hypothesis HO : forall k c n o fs, P (DOneof k c n o fs).
+  Hypothesis HM : forall k c n o body, Forall P body -> P (DMsg k c n o body).
+  Hypothesis HE : forall k c n o vs, P (DEnum k c n o vs).
+  Hypothesis HS : forall k c n o ms, P (DService k c n o ms).
+  Fixpoint delem_forall_ind (e : delem) : P e :=
+    match e with
+    | DField f => HF f
+    | DOneof k c n o fs => HO k c n o fs
+    | DMsg k c n o body =>
+        HM k c n o body ((fix go (l : list delem) : Forall P l :=
+                            match l with
+                            | [] => Forall_nil P
+                            | x :: r => Forall_cons x (delem_forall_ind x) (go r)
+                            end) body)
+    | DEnum k c n o vs => HE k c n o vs
+    | DService k c n o ms => HS k c n o ms
+    end.
+End DelemInd.
+
+Lemma lay_msg_body_is_keyed st pkg ctx body :
+  (fix go (l : list delem) : list (key3 * selem) :=
+     match l with [] => [] | x :: r => (ekey x, lay_elem st pkg ctx x) :: go r end) body = lay_keyed st pkg ctx body.
+Proof. induction body as [|x r IH]; cbn [lay_keyed]; [reflexivity|]. rewrite IH. reflexivity. Qed.
+
+Lemma lay_elem_equiv e1 : forall e2 st pkg ctx, delem_equiv e1 e2 ->
+  ekey e1 = ekey e2 /\ lay_elem st pkg ctx e1 = lay_elem st pkg ctx e2.
+Proof.
+  induction e1 as [f1|k1 c1 n1 o1 fs1|k1 c1 n1 o1 b1 IH|k1 c1 n1 o1 vs1|k1 c1 n1 o1 ms1] using delem_forall_ind;
+    intros e2 st pkg ctx H; destruct e2 as [f2|k2 c2 n2 o2 fs2|k2 c2 n2 o2 b2|k2 c2 n2 o2 vs2|k2 c2 n2 o2 ms2];
+    cbn [delem_equiv] in H; try contradiction.
+  - split; [cbn [ekey]; destruct H as (E & _); rewrite E; reflexivity|].
+    cbn [lay_elem]. rewrite (lay_field_equiv st pkg ctx false f1 f2 H). reflexivity.
+  - destruct H as (-> & -> & -> & [Hp Hd] & Hfs). split; [reflexivity|].
+    cbn [lay_elem]. rewrite (lay_sopts_perm _ _ Hp Hd), (lay_fields_equiv st pkg ctx _ _ Hfs). reflexivity.
+  - destruct H as (-> & -> & -> & [Hp Hd] & Hb). split; [reflexivity|].
+    cbn [lay_elem]. rewrite (lay_sopts_perm _ _ Hp Hd), !lay_msg_body_is_keyed. f_equal. f_equal.
+    clear Hp Hd. revert b2 Hb. induction IH as [|x r Hx _ IHr]; intros [|y s] Hb; try contradiction; [reflexivity|].
+    destruct Hb as [Hxy Hrs]. cbn [lay_keyed]. destruct (Hx y st pkg (ctx ++ [n2]) Hxy) as [Ek El].
+    rewrite Ek, El, (IHr s Hrs). reflexivity.
+  - destruct H as (-> & -> & -> & [Hp Hd] & Hvs). split; [reflexivity|].
+    cbn [lay_elem]. rewrite (lay_sopts_perm _ _ Hp Hd). f_equal. f_equal.
+    apply (map_Forall2_eq value_equiv); [exact Hvs|]. intros a b Hab. rewrite (lay_value_equiv a b Hab).
+    destruct Hab as (E & _). rewrite E. reflexivity.
+  - destruct H as (-> & -> & -> & [Hp Hd] & Hms). split; [reflexivity|].
+    cbn [lay_elem]. rewrite (lay_sopts_perm _ _ Hp Hd). f_equal. f_equal.
+    apply (map_Forall2_eq method_equiv); [exact Hms|]. intros a b Hab. rewrite (lay_method_equiv st pkg n2 a b Hab).
+    destruct Hab as (E & _). rewrite E. reflexivity.
+Qed.
+
+Lemma lay_keyed_equiv st pkg ctx : forall l1 l2, delems_equiv l1 l2 -> lay_keyed st pkg ctx l1 = lay_keyed st pkg ctx l2.
+Proof.
+  induction l1 as [|x r IH]; intros [|y s] H; cbn [delems_equiv] in H; try contradiction; [reflexivity|].
+  destruct H as [Hxy Hrs]. cbn [lay_keyed]. destruct (lay_elem_equiv x y st pkg ctx Hxy) as [Ek El].
+  rewrite Ek, El, (IH s Hrs). reflexivity.
+Qed.
+
+Theorem print_file_tokens_range_order_free st d1 d2 :
+  dfile_equiv d1 d2 -> print_file_tokens st d1 = print_file_tokens st d2.
+Proof.
+  intros (E1 & E2 & E3 & Hx & Hb). unfold print_file_tokens. f_equal. unfold lay_file. rewrite E1, E2, E3.
+  f_equal.
+  - f_equal. apply (map_Forall2_eq (fun x y => fst x = fst y /\ field_equiv (snd x) (snd y))); [exact Hx|].
+    intros a b [Ea Hf]. rewrite Ea, (lay_field_equiv st (d_pkg d2) [] true _ _ Hf). reflexivity.
+  - unfold lay_body. f_equal. apply lay_keyed_equiv. exact Hb.
+Qed.
